@@ -28,6 +28,8 @@ import RapidProofs.TranslatedProgEq
 import RapidProofs.TranslatedFloatEq
 import RapidProofs.TranslatedFindEq
 import RapidProofs.TranslatedChoiceEq
+import RapidProofs.TranslatedRepeatEq
+import RapidProofs.ContractsRepeat
 import RapidModel.Generated.Thresholds
 import RapidModel.Minimize
 
@@ -401,6 +403,46 @@ theorem source_oneOf (fe : Go.FEval) (e : Env) (H : FloatFacts fe e.ft) (lab : B
     (fun i => wrapValue ((g i).lbl lab) ((g i).body e lab)) (fun i hi => by simp; exact bind_ret_runEq _)
   show RunEq _ (index _ _ _ _ _)
   simpa using this
+
+/-! ### `repeat.more` / `repeat.reject` of utils.go, translated from the source on every run -/
+
+/-- the loop every collection generator writes around `repeat.more` (`for r.more(s) { … r.reject() … }`), started from
+    `newRepeat`, is the model's `repeatLoop`: for every body, source of words and `*T` state the result, the rest of the
+    source, the recorded tokens, the events and the overrun flag are the model's (or the model ran out of fuel: the
+    deadline).  `pc` is the loop's `pContinue` as a float64 bit pattern and `c.thr` the threshold the model uses for it
+    (`hcp`: the float facts the correspondence check tests on the runtime table). -/
+theorem source_repeat_loop (fe : Go.FEval) (ft : FT) (HB : FloatFactsBits fe ft) (c : RCfg) (pc : UInt64)
+    (hcp : Go.CoinOK fe (.ofBits pc) c.thr) (hmin : c.minC < 2 ^ 62) (hmax : c.maxC < 2 ^ 63) (step : Val → Prog)
+    (hshape : StepShape step) (cf fuel : Nat) (hfuel : fuel < 2 ^ 59) (acc : Val) (src : Src) (ts : TS) :
+    ((repeatLoop c step (fun a => .ret a) fuel {} acc).run src ts).res = .error .fuel ∨
+    (Go.StM.run (Go.repeatWhile fe step cf fuel (Go.RS.fresh c pc) acc) (Go.StState.fresh src ts)).core =
+      Go.outCore ((repeatLoop c step (fun a => .ret a) fuel {} acc).run src ts) :=
+  Go.tr_repeat fe ft HB c pc hcp hmin hmax step hshape cf fuel hfuel acc src ts
+
+/-- so the number of elements the *source's* loop has accepted when it hands its accumulator on lies between `minCount`
+    and `maxCount` (`m` measures the accumulator; every accepted element adds one) -/
+theorem source_repeat_count (fe : Go.FEval) (ft : FT) (HB : FloatFactsBits fe ft) (c : RCfg) (pc : UInt64)
+    (hcp : Go.CoinOK fe (.ofBits pc) c.thr) (hmin : c.minC < 2 ^ 62) (hmax : c.maxC < 2 ^ 63) (hmm : c.minC ≤ c.maxC)
+    (step : Val → Prog) (hshape : StepShape step) (m : Val → Nat)
+    (hstep : ∀ acc src ts a, ((step acc).run src ts).res = .ok (rAcc a) → m a = m acc + 1)
+    (cf fuel : Nat) (hfuel : fuel < 2 ^ 59) (acc : Val) (hm : m acc = 0) (src : Src) (ts : TS)
+    (hdl : ((repeatLoop c step (fun a => .ret a) fuel {} acc).run src ts).res ≠ .error .fuel) (a : Val)
+    (hres : (Go.StM.run (Go.repeatWhile fe step cf fuel (Go.RS.fresh c pc) acc) (Go.StState.fresh src ts)).core.res = .ok a) :
+    c.minC ≤ m a ∧ m a ≤ c.maxC := by
+  rcases source_repeat_loop fe ft HB c pc hcp hmin hmax step hshape cf fuel hfuel acc src ts with h | h
+  · exact absurd h hdl
+  · rw [h] at hres
+    have hM : ((repeatLoop c step (fun a => .ret a) fuel {} acc).run src ts).res = .ok a := hres
+    rcases repeat_count c hmm step hshape m hstep fuel {} acc (Nat.zero_le _) hm (fun a => .ret a) src ts with
+      ⟨a', hP, src', ts', used, kept, toks, evs, ov, hrun⟩ | ⟨e, he⟩
+    · rw [hrun] at hM
+      have : a' = a := by simpa [Prog.run, Out.ofRes, Out.after] using hM
+      exact this ▸ hP
+    · rw [he] at hM; cases hM
+
+/-- the hypotheses are satisfiable and the loop does run: two elements are forced (`minCount = 2`), then the coin stops it -/
+example : ((repeatLoop ⟨2, 5, 4503599627370496, "x"⟩ (fun acc => .draw 8 fun w => .ret (rAcc (.cons (.int w.toNat) acc)))
+    (fun a => .ret a) 9 {} .nil).run (.buf [0, 7, 0, 9, 0]) TS.fresh).res.toOption = some (.cons (.int 9) (.cons (.int 7) .nil)) := by decide +kernel
 
 /-! ### facts re-read from /repo's source on every run -/
 
